@@ -770,6 +770,7 @@ func (g *VCGen) alloc(x *ssa.Alloc) {
 	}
 	if g.isImmutable(et) {
 		g.freshImm[x] = true
+		g.checkUnstoredFieldInvs(x, et)
 		return
 	}
 	a := g.objAddr(r, et)
@@ -855,6 +856,12 @@ func (g *VCGen) unop(x *ssa.UnOp) {
 		}
 		sv := g.define(x, g.load(g.cur, a))
 		g.assumeHere(g.allocFact(sv.T, x.Type(), g.cur))
+		if a.Imm {
+			if inv, ok := g.fieldInv(a); ok && !g.freshImm[rootPointer(x.X)] {
+				env := &SpecEnv{g: g, vars: map[string]SpecVal{"value": sv}, cur: g.cur, old: g.cur, pkg: g.eng.typesPkg(inv.pkg)}
+				g.assumeHere(g.trClause(env, inv.c))
+			}
+		}
 	case token.NOT:
 		g.define(x, not(g.val(x.X).T))
 	case token.SUB:
@@ -1022,6 +1029,10 @@ func (g *VCGen) storeInstr(x *ssa.Store) {
 		// store into an immutable object: only allowed while it is fresh (constructor pattern) or in an initializer method
 		root := rootPointer(x.Addr)
 		if g.freshImm[root] || (g.fc != nil && hasProp(g.fc.Props, "initializer")) {
+			if inv, ok := g.fieldInv(a); ok {
+				env := &SpecEnv{g: g, vars: map[string]SpecVal{"value": {v.T, v.Sort, a.Elem}}, cur: g.cur, old: g.cur, pkg: g.eng.typesPkg(inv.pkg)}
+				g.oblige("fieldinv@"+x.Addr.Name(), "invariant", g.trGoal(env, inv.c), "write-once field invariant: "+inv.c.Text, x.Pos())
+			}
 			g.assumeHere(fmt.Sprintf("(= %s %s)", g.load(g.cur, a), v.T))
 			return
 		}
@@ -1034,6 +1045,59 @@ func (g *VCGen) storeInstr(x *ssa.Store) {
 		}
 	}
 	g.store(g.cur, a, v.T)
+}
+
+type fieldInvRef struct {
+	c   Clause
+	pkg string
+}
+
+// fieldInv: declared invariant of a write-once field (address must be a first-level field of an immutable object).
+func (g *VCGen) fieldInv(a *Addr) (fieldInvRef, bool) {
+	if !a.Imm || len(a.Path) != 1 {
+		return fieldInvRef{}, false
+	}
+	n, ok := a.Root.(*types.Named)
+	if !ok || n.Obj().Pkg() == nil {
+		return fieldInvRef{}, false
+	}
+	key := n.Obj().Pkg().Path() + "." + n.Obj().Name() + "." + a.Path[0].st.Field(a.Path[0].field).Name()
+	c, ok := g.eng.contracts.FieldInvs[key]
+	return fieldInvRef{c, n.Obj().Pkg().Path()}, ok
+}
+
+// a fresh write-once object whose invariant-carrying field is never stored keeps the zero value: check it
+func (g *VCGen) checkUnstoredFieldInvs(x *ssa.Alloc, et types.Type) {
+	n, ok := et.(*types.Named)
+	if !ok || n.Obj().Pkg() == nil {
+		return
+	}
+	st, ok := et.Underlying().(*types.Struct)
+	if !ok {
+		return
+	}
+	for i := 0; i < st.NumFields(); i++ {
+		key := n.Obj().Pkg().Path() + "." + n.Obj().Name() + "." + st.Field(i).Name()
+		c, ok := g.eng.contracts.FieldInvs[key]
+		if !ok {
+			continue
+		}
+		stored := false
+		for _, ref := range *x.Referrers() {
+			if fa, ok := ref.(*ssa.FieldAddr); ok && fa.Field == i {
+				for _, r2 := range *fa.Referrers() {
+					if _, ok := r2.(*ssa.Store); ok {
+						stored = true
+					}
+				}
+			}
+		}
+		if !stored {
+			ft := st.Field(i).Type()
+			env := &SpecEnv{g: g, vars: map[string]SpecVal{"value": {g.so.zero(ft), g.so.sortOf(ft), ft}}, cur: g.cur, old: g.cur, pkg: g.eng.typesPkg(n.Obj().Pkg().Path())}
+			g.oblige("fieldinv.zero@"+x.Name()+"."+st.Field(i).Name(), "invariant", g.trGoal(env, c), "write-once field left at its zero value must satisfy: "+c.Text, x.Pos())
+		}
+	}
 }
 
 func rootPointer(v ssa.Value) ssa.Value {
